@@ -657,6 +657,8 @@ def scale_case(index: int):
         stops = [_lit(k) for k in range(n)]
         rules["r"] = (mod if mod != "mixed" else "@", ("seq", [("star", ("group", ("seq", [("not", ("group", ("alt", [("str", x) for x in stops]))), ("any",)]))), ("opt", ("str", stops[-1])), ("eoi",)]))
         inputs = ["", "zzzz", "zz zz", "zz" + stops[-1], "z" + stops[0] + "z", stops[n // 2], "zzz" + stops[-1][:-1], "z z " + stops[-1]]
+        # stop string on and around power-of-two offsets (windowed or chunked searches)
+        inputs += ["z" * k + stops[-1] for k in (255, 256, 1022, 1023, 1024, 1025, 2047, 4095, 4096)] + ["z" * 1023 + stops[0] + "z" * 1023 + stops[-1]]
     elif fam in ("recursion_depth", "paren_depth"):
         # rule-stack depth d: the recursion budget of the interpreter is far beyond these (a few thousand frames)
         d = SCALE_DEPTHS[n]
